@@ -109,6 +109,9 @@ class Lemma:
     def __init__(self, name, params, requires, ensures, prop, what, body="", mode="nl"):
         self.name, self.params, self.requires, self.ensures, self.prop, self.what, self.body = name, params, requires, ensures, prop, what, body
         self.mode = mode  # "nl": flat non-linear lemma (mod nl);  "root": default-mode composition of other lemmas
+        # a composition lemma is a proof script written against the operation sequence of the body: after a
+        # behaviour-preserving restructuring of that body the script no longer applies although the property holds
+        self.structural = bool(body) and mode == "root"
 
     def text(self, canary=False):
         req = (" requires " + ", ".join(self.requires)) if self.requires else ""
@@ -447,7 +450,8 @@ def gen_type_lemmas2(meta):
         XXs = G.smul_jet(X, X)
         XCs = G.smul_jet(X, Cx)
         ens = [f"{G.smul(p, Y, XXs)} == {Sx[idx[p]]} - {XCs[idx[p]]}" for p in outs]
-        hy = ["abs_r(x_re) >= eps_r()", "eps_r() > 0real", "x_re * x_re != 0real", "(x_re * x_re) * recip_r(x_re * x_re) == 1real"]
+        den = G.mjet("mul_rr", [X, X])[0]  # real part of the denominator exactly as the body forms it
+        hy = ["abs_r(x_re) >= eps_r()", "eps_r() > 0real", f"{den} != 0real", f"({den}) * recip_r({den}) == 1real"]
         L("sph_j1_closed", reals(X), hy, ens, ["C15", "C03"], "sph_j1 for |x| >= eps: Y (x) (X (x) X) == sin X - X (x) cos X", body=" ".join(state["calls"]), mode="root")
     if have("sph_j1"):
         tabz = ["0real", "(1real / 3real)", "0real", "(-(1real / 5real))"]
@@ -475,7 +479,8 @@ def gen_type_lemmas2(meta):
         D2s = G.smul_jet(D1s, c3)
         XXSs = G.smul_jet(XXs, Sx)
         ens = [f"{G.smul(p, Y, XXXs)} == {D2s[idx[p]]} - {XXSs[idx[p]]}" for p in outs]
-        hy = ["abs_r(x_re) >= eps_r()", "eps_r() > 0real", "(x_re * x_re) * x_re != 0real", "((x_re * x_re) * x_re) * recip_r((x_re * x_re) * x_re) == 1real"]
+        den = G.mjet("mul_or", [G.mjet("mul_rr", [X, X]), X])[0]  # real part of the denominator exactly as the body forms it
+        hy = ["abs_r(x_re) >= eps_r()", "eps_r() > 0real", f"{den} != 0real", f"({den}) * recip_r({den}) == 1real"]
         L("sph_j2_closed", reals(X), hy, ens, ["C15", "C03"], "sph_j2 for |x| >= eps: Y (x) X^3 == 3 (sin X - X cos X) - X^2 sin X", body=" ".join(state["calls"]), mode="root")
     if have("sph_j2"):
         tabz = ["0real", "0real", "(2real / 15real)", "0real"]
